@@ -210,6 +210,31 @@ def global_state_census(rep):
     else:
         rep.proved('C20.globals.class', 'frames', f'{len(ccont)} class-level containers ({sorted(n for _, _, n in ccont)[:12]}...); none is written through an attribute at run time', function='(whole repository)',
                    clause='no class-level mutable container is written after import')
+    # module-level names re-bound at run time (`global NAME` inside a function): shared state that the container census does not see
+    rebinds = []
+    for m in mods:
+        for fn in ast.walk(repo.module_ast(m)):
+            if isinstance(fn, (ast.FunctionDef, ast.AsyncFunctionDef)):
+                gl = {nm for n in ast.walk(fn) if isinstance(n, ast.Global) for nm in n.names}
+                for n in ast.walk(fn):
+                    ts = []
+                    if isinstance(n, ast.Assign):
+                        ts = n.targets
+                    elif isinstance(n, (ast.AugAssign, ast.AnnAssign)):
+                        ts = [n.target]
+                    for t in ts:
+                        for x in ast.walk(t):
+                            if isinstance(x, ast.Name) and x.id in gl:
+                                rebinds.append((m, fn.name, x.id, n.lineno))
+    if rebinds:
+        for (m, fname, name, line) in sorted(set(rebinds)):
+            oid = f'C20.globals.rebind.{m.split(".")[-1]}.{name}.{fname}'
+            if any(o.id == oid for o in rep.obs):
+                continue
+            rep.failed(oid, 'frames', f'{m}:{fname} (line {line}) re-binds the module-level name {name} at run time: every call and every thread that reads it sees the change', function=f'{m}:{fname}',
+                       clause='no module-level name is re-bound after import')
+    else:
+        rep.proved('C20.globals.rebind', 'frames', 'no function declares a module-level name `global` and assigns it', function='(whole repository)', clause='no module-level name is re-bound after import')
     # memoisation decorators share results between calls: none today; if one appears its result type needs a contract (immutable => fine)
     memo = []
     for m in mods:
